@@ -13,8 +13,12 @@ enum { O_PUSH = 0, O_POP = 1, O_PUSHN = 2, O_POPN = 3, O_FRONT = 4 };
 const char* const opnames[] = {"push", "pop", "push_batch", "pop_batch", "front+pop_front", nullptr};
 struct dyn_any : cds::container::weak_ringbuffer::traits { typedef cds::opt::v::uninitialized_dynamic_buffer<void*, CDS_DEFAULT_ALLOCATOR, false> buffer; };
 
+// element type with a non-trivial destructor: the ring's value cleaner runs ~Elem() on popped cells, which must never hit a cell the
+// producer has already refilled (a destroyed element reads as -77)
+struct Elem { long v; Elem() : v(0) {} Elem(long x) : v(x) {} Elem(const Elem& o) : v(o.v) {} Elem& operator=(const Elem& o) { v = o.v; return *this; } ~Elem() { *(volatile long*)&v = -77; /* volatile: the compiler would drop a plain store into a dying object */ } operator long() const { return v; } };
+
 // ---- typed ring
-template <class Ring> void run_typed(Ctx& ctx) {
+template <class Ring, class E = long> void run_typed(Ctx& ctx) {
     const Program& P = *ctx.prog; long cap = P.knob("capacity", 4);
     {
         Ring ring((size_t)cap); cap = (long)ring.capacity();
@@ -28,10 +32,10 @@ template <class Ring> void run_typed(Ctx& ctx) {
                     long n = op.kind == O_PUSHN ? op.a : 1; if (n >= cap) n = cap - 1; if (n < 1) n = 1;
                     long free_lower_bound = cap - (pushed_done - popped_done);     // at invocation; free space only grows during the call
                     bool ok;
-                    if (op.kind == O_PUSHN) { std::vector<long> arr(n); for (long i = 0; i < n; i++) arr[i] = next_push + i; ok = op.b ? ring.push(arr.data(), (size_t)n, [](long& d, long const& s) { d = s; }) : ring.push(arr.data(), (size_t)n); }
-                    else if (op.b == 1) { long v = next_push; ok = ring.enqueue_with([v](long& d) { d = v; }); }
+                    if (op.kind == O_PUSHN) { std::vector<E> arr(n); for (long i = 0; i < n; i++) arr[i] = E(next_push + i); ok = op.b ? ring.push(arr.data(), (size_t)n, [](E& d, E const& s) { new (&d) E(s); }) : ring.push(arr.data(), (size_t)n); }
+                    else if (op.b == 1) { long v = next_push; ok = ring.enqueue_with([v](E& d) { new (&d) E(v); }); }
                     else if (op.b == 2) ok = ring.emplace(next_push);
-                    else ok = ring.push(next_push);
+                    else ok = ring.push(E(next_push));
                     if (ok) { next_push += n; res = n; }
                     else if (free_lower_bound >= n) ctx.fail("push-failed-with-space", "push of %ld element(s) failed although at least %ld of %ld cells were free throughout the call", n, free_lower_bound, cap);
                     ctx.end_op(h, res); if (ok) pushed_done += n; return;
@@ -39,17 +43,17 @@ template <class Ring> void run_typed(Ctx& ctx) {
                 // consumer
                 long n = op.kind == O_POPN ? op.a : 1; if (n >= cap) n = cap - 1; if (n < 1) n = 1;
                 long avail_lower_bound = pushed_done - popped_done; bool ok = false; std::vector<long> got;
-                if (op.kind == O_POPN) { got.assign(n, -1); ok = op.b ? ring.pop(got.data(), (size_t)n, [](long& d, long& s) { d = s; }) : ring.pop(got.data(), (size_t)n); if (!ok) got.clear(); }
-                else if (op.kind == O_FRONT) { long* f = ring.front(); if (f) { got.push_back(*f); dsim::point(dsim::K_USER); ok = ring.pop_front(); if (!ok) ctx.fail("pop-front-failed", "pop_front() failed right after front() returned an element"); } }
-                else if (op.b == 1) { long v = -1; ok = ring.dequeue_with([&v](long& s) { v = s; }); if (ok) got.push_back(v); }
-                else { long v = -1; ok = ring.pop(v); if (ok) got.push_back(v); }
+                if (op.kind == O_POPN) { std::vector<E> tmp(n, E(-1)); ok = op.b ? ring.pop(tmp.data(), (size_t)n, [](E& d, E& s) { d = s; }) : ring.pop(tmp.data(), (size_t)n); if (ok) for (auto& e : tmp) got.push_back((long)e); }
+                else if (op.kind == O_FRONT) { E* f = ring.front(); if (f) { got.push_back((long)*f); dsim::point(dsim::K_USER); ok = ring.pop_front(); if (!ok) ctx.fail("pop-front-failed", "pop_front() failed right after front() returned an element"); } }
+                else if (op.b == 1) { long v = -1; ok = ring.dequeue_with([&v](E& s) { v = (long)s; }); if (ok) got.push_back(v); }
+                else { E v(-1); ok = ring.pop(v); if (ok) got.push_back((long)v); }
                 if (ok) { for (long v : got) { if (v != next_pop) { ctx.fail("wrong-element", "consumer received %ld where element %ld was due (lost, duplicated or reordered)", v, next_pop); break; } ++next_pop; } res = (long)got.size(); }
                 else if (avail_lower_bound >= n) ctx.fail("pop-failed-with-data", "pop of %ld element(s) failed although at least %ld were present throughout the call", n, avail_lower_bound);
                 ctx.end_op(h, res); if (ok) popped_done += (long)got.size();
             },
             [&](int) {});
         // quiescent drain
-        long v; while (ring.pop(v)) { if (v != next_pop) { ctx.fail("wrong-element", "drain received %ld where element %ld was due", v, next_pop); break; } ++next_pop; }
+        E v(-1); while (ring.pop(v)) { if ((long)v != next_pop) { ctx.fail("wrong-element", "drain received %ld where element %ld was due", (long)v, next_pop); break; } ++next_pop; }
         if (next_pop != next_push) ctx.fail("element-lost", "%ld elements were pushed but only %ld could be popped", next_push - 1, next_pop - 1);
     }
 }
@@ -115,6 +119,10 @@ typedef cds::container::WeakRingBuffer<long> R1; typedef cds::container::WeakRin
 typedef cds::container::WeakRingBuffer<void> V1; typedef cds::container::WeakRingBuffer<void, dyn_any> V2;
 RB_SUBJECT(r1, "misc.WeakRingBuffer_pow2", run_typed<R1>, gen_typed, "cds/container/weak_ringbuffer.h WeakRingBuffer<T> (power-of-two buffer)")
 RB_SUBJECT(r2, "misc.WeakRingBuffer_anysize", run_typed<R2>, gen_typed, "cds/container/weak_ringbuffer.h WeakRingBuffer<T> (modulo buffer)")
+typedef cds::container::WeakRingBuffer<Elem> R3; typedef cds::container::WeakRingBuffer<Elem, dyn_any> R4;
+static void run_r3(Ctx& c) { run_typed<R3, Elem>(c); } static void run_r4(Ctx& c) { run_typed<R4, Elem>(c); }
+RB_SUBJECT(r5, "misc.WeakRingBuffer_dtor_pow2", run_r3, gen_typed, "cds/container/weak_ringbuffer.h WeakRingBuffer<T> with a non-trivially destructible T (value cleaner)")
+RB_SUBJECT(r6, "misc.WeakRingBuffer_dtor_anysize", run_r4, gen_typed, "cds/container/weak_ringbuffer.h WeakRingBuffer<T> with a non-trivially destructible T, modulo buffer")
 RB_SUBJECT(r3, "misc.WeakRingBuffer_void_pow2", run_void<V1>, gen_void, "cds/container/weak_ringbuffer.h WeakRingBuffer<void>")
 RB_SUBJECT(r4, "misc.WeakRingBuffer_void_anysize", run_void<V2>, gen_void, "cds/container/weak_ringbuffer.h WeakRingBuffer<void> (modulo buffer)")
 } // namespace
